@@ -123,3 +123,51 @@ func VerifC28SessionLifecycle() {
 
 // stub of the symbolic run: UsedProviders.RemoveUsed classifies the error with regular expressions (outside the encoder)
 func verifC28RemoveUsed(up *UsedProviders, providerAddress string, routerKey RouterKey, err error) {}
+
+// ---- other relays as interference at lock acquisitions (symbolic run only) ----
+// verifC28Interfere runs before every lock acquisition / atomic operation of the executed thread; the provider lock
+// is not held by the thread at those points in the functions exercised below, so other relays may have reserved or
+// released CU meanwhile: used CU moves to any value within the limit (they run the same locked check).
+var (
+	verifC28Parent *ConsumerSessionsWithProvider
+	verifC28Limit  uint64
+	verifC28Budget int
+)
+
+func verifC28Interfere() {
+	if verifC28Parent == nil || verifC28Budget == 0 {
+		return
+	}
+	if !verif_nondet_bool("otherRelays.actNow") {
+		return
+	}
+	verifC28Budget--
+	nv := verif_nondet_u64("otherRelays.usedCuAfter")
+	verif_assume(nv <= verifC28Limit)
+	verifC28Parent.UsedComputeUnits = nv
+}
+
+// VerifC28ConcurrentReserve: reserving a relay's CU while other relays of the same provider reserve and release CU
+// at every lock acquisition: whenever the reservation succeeds the provider's used CU is within its limit.
+func VerifC28ConcurrentReserve() {
+	max := verif_nondet_u64("provider.MaxComputeUnits")
+	used := verif_nondet_u64("provider.UsedComputeUnits")
+	ve := verif_nondet_u64("virtualEpoch")
+	cu := verif_nondet_u64("relay.cu")
+	verif_assume(max < 1<<48 && ve < 1<<10 && cu < 1<<32)
+	limit := max * (ve + 1)
+	verif_assume(used <= limit)
+	parent := NewConsumerSessionWithProvider("provider", nil, max, 20, sdk.Coin{Denom: "ulava", Amount: sdkmath.ZeroInt()})
+	parent.UsedComputeUnits = used
+	verifC28Parent, verifC28Limit, verifC28Budget = parent, limit, verif_param("interferences", 2)
+
+	err := parent.addUsedComputeUnits(cu, ve)
+
+	verifC28Budget = 0
+	if err == nil {
+		verif_assert("reserved-cu-within-limit-whatever-the-other-relays-did", parent.UsedComputeUnits <= limit)
+		verif_reach("reserved")
+	} else {
+		verif_reach("refused")
+	}
+}
